@@ -435,14 +435,16 @@ def rc4_prga(repo):
 WIDTH = {"u8": 1, "u16": 2, "u32": 4, "u64": 8}
 
 def impl_fn(text, impl_header, fname, what):
-    m = re.search(impl_header, text)
-    if not m:
-        raise gc.Missing("impl block %s not found in %s" % (impl_header, what))
-    i = text.index("{", m.end() - 1)
+    msk = gc.mask_literals(text)
+    ms = list(re.finditer(impl_header, msk))
+    if len(ms) != 1:
+        raise gc.Missing("expected exactly one impl block %s in %s, found %d" % (impl_header, what, len(ms)))
+    m = ms[0]
+    i = msk.index("{", m.end() - 1)
     depth = 0
-    for j in range(i, len(text)):
-        if text[j] == "{": depth += 1
-        elif text[j] == "}":
+    for j in range(i, len(msk)):
+        if msk[j] == "{": depth += 1
+        elif msk[j] == "}":
             depth -= 1
             if depth == 0:
                 blk = text[i:j + 1]; break
